@@ -51,7 +51,7 @@ for d in sorted(glob.glob(os.path.join(V, "seeded", "*"))):
     how = next((l for l in chk.get("lines", []) if l.startswith("INFO:")), "")[6:]
     rows.append("| %s | %s | %s | %s |" % (os.path.basename(d), m.get("property", "?"),
                                         (m.get("title") or m.get("mechanism", ""))[:140].replace("|", "/"),
-                                        ("yes" if det else "**no**") + (" (thorough tier only)" if (m.get("confirmed_by_us") or {}).get("check_tier") == "thorough" else "") + (" — " + how[:120] if how else "")))
+                                        ("yes" if det else "**no**") + (" (thorough tier only)" if (m.get("confirmed_by_us") or {}).get("check_tier") == "thorough" else "") + (" — " + how[:120] if how else "") + ((" (not a violation of this property's subject; caught by the " + m["detected_by_other_property"] + " check)") if m.get("detected_by_other_property") else "")))
 seeds = "\n".join(rows)
 
 # status
